@@ -35,6 +35,7 @@ func main() {
 	r.Assume("2D MeshToHierarchy is only given meshes whose loops are each consistently oriented (its traversal follows segment direction)")
 
 	diag3Sections(r)
+	collide3Sections(r)
 	selfx3Sections(r)
 	repair3Sections(r)
 	normals3Sections(r)
